@@ -11,7 +11,7 @@ RULE = ("seeded well-formed sequences (1-3 channels sharing pitches, back-to-bac
         "quantise_note_lengths decides allowed value / onset+velocity kept / no overlap / not extended / closest fit / "
         "removed only if nothing fits / non-notes untouched. Non-trivial: some duration changed or a note was removed.")
 PLAN = {"quick": {"cases": 6000, "jobs": 4, "timeout": 600},
-        "thorough": {"cases": 400000, "jobs": 16, "timeout": 3000, "budget_s": 420}}
+        "thorough": {"cases": 2000000, "jobs": 16, "timeout": 3000, "budget_s": 360}}
 FLOORS = {"quick": {"qnl.closest_fit.armed": 5000, "qnl.removed_only_if_nothing_fits.armed": 200, "qnl.not_extended.armed": 2000},
           "thorough": {"qnl.closest_fit.armed": 100000, "qnl.removed_only_if_nothing_fits.armed": 5000}}
 VALUES = [None, [24, 12, 6], [4, 8, 16], [24, 12, 6, 16, 8, 4, 36, 18, 9], [5], [3, 7, 30], [48, 2], [12]]
